@@ -95,13 +95,14 @@ RowsRelated(ga, gb, pa, pb, F(_)) ==
   /\ \A r \in 1..Len(ga) :
         /\ Len(ga[r]) = Len(gb[r])
         /\ \A i \in 1..Len(ga[r]) : IF IsHeaderTextRow(gb[r]) THEN HeaderPair(ga[r][i], gb[r][i], pa, pb)
-                                                              ELSE ga[r][i] = F(gb[r][i])
+                                                              ELSE NormCell(ga[r][i]) = NormCell(F(gb[r][i]))
 PerNoteBasic(t) == LET parts == SplitOn(t, SPACE) IN Join([i \in 1..Len(parts) |-> BasicNote(parts[i])], SPACE)
 NoLetters(t) == SelectSeq(t, LAMBDA c : c \notin 97..103 /\ c \notin 65..71)
 NoteCount(t) == Len(SplitOn(t, SPACE))
 RelationChecks(e) ==
   LET a == ResOf(e.a)  b == ResOf(e.b) IN
-  IF ~(a.ok /\ b.ok) THEN << <<"relation.both_succeed_or_both_raise", a.ok = b.ok>> >>
+  IF e.rel = "agn_vs_kern" /\ ~a.ok THEN <<>>      \* an agnostic export may raise (no clef in force): judged at its own dumps event
+  ELSE IF ~(a.ok /\ b.ok) THEN << <<"relation.both_succeed_or_both_raise", a.ok = b.ok>> >>
   ELSE CASE e.rel = "plain_vs_ext" ->        \* a = plain, b = extended
               << <<"relation.plain_is_extended_minus_separators", RowsRelated(a.grid, b.grid, EncPrefix(e.ea), EncPrefix(e.eb), StripSep)>> >>
          [] e.rel = "basic_vs_full" ->       \* a = basic extended, b = full extended
@@ -113,7 +114,7 @@ RelationChecks(e) ==
                    /\ Len(a.grid) = Len(b.grid)
                    /\ \A r \in 1..Len(a.grid) : Len(a.grid[r]) = Len(b.grid[r]) /\ \A i \in 1..Len(a.grid[r]) :
                          IF IsHeaderTextRow(b.grid[r]) THEN HeaderPair(a.grid[r][i], b.grid[r][i], EncPrefix(e.ea), EncPrefix(e.eb))
-                         ELSE NoLetters(a.grid[r][i]) = NoLetters(b.grid[r][i]) /\ Len(a.grid[r][i]) = Len(b.grid[r][i])>> >>
+                         ELSE NoLetters(a.grid[r][i]) = NoLetters(b.grid[r][i])>> >>
 \* same content, different arrangement of the signifiers (C01 canonicity)
 SameContent(n1, n2) == /\ n1.dur = n2.dur /\ n1.p = n2.p /\ n1.rest = n2.rest /\ n1.acc = n2.acc /\ Written(n1) = Written(n2)
 ArrangementChecks(e) ==
